@@ -87,7 +87,7 @@ mod vk_range {
         }
     }
 
-    // @harness name=range_buffered inputs=s,e,n,b scenario="kind=range s={s} e={e} c={b} ops=buffered:{n}" props=C01,C02,C03,C05,C16 kind=complete bound="contents beyond the first element checked for chunks of <= 3"
+    // @harness name=range_buffered inputs=s,e,n,b scenario="kind=range s={s} e={e} c={b} ops=buffered:{n}" props=C01,C02,C03,C04,C05,C16 kind=complete bound="contents beyond the first element checked for chunks of <= 3"
     #[kani::proof]
     #[kani::unwind(5)]
     #[kani::stub(crate::iter::atomic_counter::AtomicCounter::fetch_and_add, c_faa)]
